@@ -111,7 +111,7 @@ def _pk_eq(m, args, ci):
     r = sym.eq(a.fields[0], b.fields[0]) if isinstance(a.fields[0], (T, int)) and isinstance(b.fields[0], (T, int)) else (a.fields[0] == b.fields[0])
     return r if ci.name.endswith('eq') else sym.not_(r)
 
-@I.rx(r'(^|::)Hash::(to_byte_array|as_byte_array|into_inner|to_vec)$|^<(.*::)?(Hash|Sha256) as (AsRef|Borrow|Deref)>::(as_ref|borrow|deref)$|^<(.*::)?(Hash|Sha256) as (bitcoin_hashes::|bitcoin::hashes::|secp256k1::hashes::)?Hash>::(to_byte_array|as_byte_array|into_inner)$')
+@I.rx(r'(^|::)Hash::(to_byte_array|as_byte_array|into_inner|to_vec)$|^<(.*::)?(Hash|Sha256) as (AsRef|Borrow|Deref)>::(as_ref|borrow|deref)$|^<(.*::)?(Hash|Sha256) as ([\w:]*::)?Hash>::(to_byte_array|as_byte_array|into_inner)$')
 def _hash_bytes(m, args, ci):
     h = hash_term(args[0])
     s = Seq([], 'array', tag=('hashbytes', h))
